@@ -889,11 +889,50 @@ func structTagGet(tag, key string) string {
 
 // ---------------------------------------------------------------------------
 
+var fileSinkErrExceptions = []ErrException{
+	{Fn: "(*eventlogger.FileSink).reopen", Callee: "os.Stat",
+		Reason: "the error is only classified with os.IsNotExist (externally renamed/removed file -> open a new one); every other outcome falls through to Close + open, whose errors are returned"},
+}
+
 func runC15(c *Ctx) {
 	p, r := c.P, c.R
 	r.Explanation = "Decides the configuration-to-behaviour clauses structurally: the full decision table of FileSink.rotate over the 81 orderings of {BytesWritten vs MaxBytes, MaxBytes vs 0, time.Since(LastCreated) vs MaxDuration, MaxDuration vs 0} — the branch that closes the file is taken iff (bytes >= max and max > 0) or (elapsed > dur and dur > 0); the file-name function yields the plain configured name iff TimestampOnlyOnRotate or rotation is disabled, otherwise the pattern filled with UnixNano of the creation time that is also stored in LastCreated, and the timestamp-only rename target uses the same pattern; modes (0600 / 0700 constants, configured mode or default when zero, MkdirAll(Path, dirMode) before the open, Chmod iff a mode is configured); pruning removes exactly matches[i] for i < len(matches) - MaxFiles after sort.Strings, returns early when MaxFiles == 0, and runs only between the close and the re-open of a rotation; open resets BytesWritten and LastCreated, and the successful write adds its byte count. Strictly increasing timestamps and real directory contents are not decided."
 	r.NotDecided = []string{"timestamps being strictly increasing (clock behaviour)", "actual directory contents / files outside the sink's name space", "MaxBytes > 0 but MaxDuration < 0 corner: rotateEnabled uses MaxDuration != 0"}
 	tb := p.NewTerms(nil)
+	// --- C15.errors: no failure of opening, creating, chmod-ing, closing, renaming, globbing or
+	// removing is dropped by the rotation machinery (Process's own write/retry protocol is C13/C08)
+	nF := 0
+	for _, f := range p.FuncsIn(PkgRoot) {
+		sf := p.ShortFn(f)
+		if !strings.HasPrefix(sf, "(*eventlogger.FileSink).") || sf == "(*eventlogger.FileSink).Process" {
+			continue
+		}
+		nF += c.errorFlowRule("C15.errors", f, fileSinkErrExceptions, false)
+	}
+	if nF < 10 {
+		r.Und("C15.errors", "instance-floor", "", fmt.Sprintf("only %d fallible call sites in FileSink's rotation machinery (10 confirmed by hand)", nF))
+	}
+	// the exempted os.Stat error is consumed by os.IsNotExist only
+	if fn := c.Fn("C15.errors", PkgRoot, "FileSink", "reopen"); fn != nil {
+		for _, cs := range callsTo(fn, func(n string, cc *ssa.CallCommon) bool { return n == "os.Stat" }) {
+			ok := false
+			if v, isV := cs.(ssa.Value); isV {
+				for _, ref := range nonDebugRefs(v) {
+					if ex, isEx := ref.(*ssa.Extract); isEx && ex.Index == 1 {
+						refs := nonDebugRefs(ex)
+						ok = len(refs) == 1
+						for _, u := range refs {
+							uc, isC := u.(ssa.CallInstruction)
+							if !isC || calleeName(uc.Common()) != "os.IsNotExist" {
+								ok = false
+							}
+						}
+					}
+				}
+			}
+			r.Check(ok, "C15.errors", "(*eventlogger.FileSink).reopen->os.Stat:exception-shape", p.InstrPos(cs), "the Stat error is consumed by os.IsNotExist only (file gone -> re-open; anything else -> close and re-open)", "the exempted os.Stat error is no longer consumed by os.IsNotExist alone")
+		}
+	}
 	// --- C15.trigger
 	if fn := c.Fn("C15.trigger", PkgRoot, "FileSink", "rotate"); fn != nil {
 		paths := c.enum("C15.trigger", fn, PathOpts{})
